@@ -768,6 +768,19 @@ def F38_nonfinite_target_accepted():
             "detail": "; ".join(f"{n} -> {r[0] or 'accepted and ran'}: {r[1][:70]}" for n, r in rs)}
 
 
+def F36_syst_zero_weight_last():
+    """a trailing zero-weight particle selected when the running sum falls short of 1 (fixed in /repo 5a51476)"""
+    u1 = float(np.nextafter(1.0, 0.0))
+    r1 = _syst(1, [0.1] * 10 + [0.0], u1)
+    r2 = _syst(10, [0.1] * 10 + [0.0], u1)
+    r3 = _syst(1, [0.5, 0.5 - 2.0 ** -30, 0.0], 1.0 - 2.0 ** -31)
+    bad = [r for r in (r1, r2, r3) if not isinstance(r, list) or any(i in (10,) for i in r[:0])]
+    sel = (isinstance(r1, list) and 10 in r1) or (isinstance(r2, list) and 10 in r2) or (isinstance(r3, list) and 2 in r3) \
+        or not all(isinstance(r, list) for r in (r1, r2, r3))
+    return {"fails": bool(sel), "detail": f"n=1,w=[.1]*10+[0],u0=nextafter(1,0) -> {r1}; n=10 -> {r2}; n=1,w=[1/2,1/2-2^-30,0],u0=1-2^-31 -> {r3} "
+                                          "(index of the zero-weight last particle must not appear)"}
+
+
 ALL = {k: v for k, v in list(globals().items()) if k[:1] == "F" and callable(v)}
 
 if __name__ == "__main__":
